@@ -27,6 +27,7 @@ import ast
 import re
 from typing import Any, Dict, List, Optional, Sequence, Set, Tuple
 
+from engine.srcmatch import U
 from engine.fold import EnumMember, Folder, FoldError
 from engine.model import AnalysisError, Program, dotted, walk_no_nested
 from engine.wire import UNKNOWN, Config, Extractor, expand, value_count
@@ -76,14 +77,14 @@ class DmxWire:
             def visit_Name(self, node: ast.Name) -> ast.AST:
                 v = me.const_int(node)
                 return ast.copy_location(ast.Constant(v), node) if v is not None else node
-        return ast.unparse(_K().visit(ast.parse(ast.unparse(test), mode='eval').body))
+        return U(_K().visit(ast.parse(U(test), mode='eval').body))
 
     def fmt(self, e: ast.AST) -> str:
         if isinstance(e, ast.Constant) and isinstance(e.value, str):
             return e.value
         if isinstance(e, ast.Name) and isinstance(self.env.get(e.id), str) and self.env[e.id] not in ('OBJ', 'FIX', 'VAR', 'ENC', 'BIN', 'ONE'):
             return self.env[e.id]
-        raise AnalysisError(f'line {e.lineno}: struct format `{ast.unparse(e)}` is not decided under this configuration')
+        raise AnalysisError(f'line {e.lineno}: struct format `{U(e)}` is not decided under this configuration')
 
     def enc(self, e: Optional[ast.AST]) -> str:
         if e is None:
@@ -92,14 +93,14 @@ class DmxWire:
             return str(e.value)
         if isinstance(e, ast.Name) and self.env.get(e.id) == 'ENC':
             return 'enc'
-        raise AnalysisError(f'line {e.lineno}: encoding `{ast.unparse(e)}` not recognised')
+        raise AnalysisError(f'line {e.lineno}: encoding `{U(e)}` not recognised')
 
     def size_tok(self, e: ast.AST, node: ast.AST) -> Tok:
         if isinstance(e, ast.Constant) and isinstance(e.value, int):
             return Tok(f'R{e.value};', node)
         if isinstance(e, ast.Name) and self.env.get(e.id) in ('FIX', 'VAR'):
             return Tok('Rfix;' if self.env[e.id] == 'FIX' else 'Rvar;', node)
-        raise AnalysisError(f'line {e.lineno}: read size `{ast.unparse(e)}` not recognised')
+        raise AnalysisError(f'line {e.lineno}: read size `{U(e)}` not recognised')
 
     # -- expressions --------------------------------------------------------------------------------------------------------
     def expr(self, e: Optional[ast.AST]) -> List[Item]:
@@ -165,7 +166,7 @@ class DmxWire:
             if tail.endswith(b'-->\n\0'):
                 return [Tok('R2;', node)]            # the reader is entered after the comment and consumes b'\n\0'
             raise AnalysisError(f'line {x.lineno}: header template does not end with the comment terminator + newline + NUL')
-        raise AnalysisError(f'line {x.lineno}: written value `{ast.unparse(x)[:60]}` not recognised')
+        raise AnalysisError(f'line {x.lineno}: written value `{U(x)[:60]}` not recognised')
 
     # -- statements ---------------------------------------------------------------------------------------------------------
     def block(self, stmts: Sequence[ast.stmt]) -> List[Item]:
@@ -534,7 +535,7 @@ def run(ctx: Any, prog: Program) -> None:
     if not isinstance(v2i, dict) or not isinstance(off, int):
         raise AnalysisError('VAL_TYPE_TO_IND / ARRAY_OFFSET could not be folded')
     i2v_node = dmx.global_assign('IND_TO_VALTYPE')
-    ok = isinstance(i2v_node, ast.DictComp) and 'VAL_TYPE_TO_IND.items()' in ast.unparse(i2v_node) and ast.unparse(i2v_node.key) == 'ind' and ast.unparse(i2v_node.value) == 'val_type'
+    ok = isinstance(i2v_node, ast.DictComp) and 'VAL_TYPE_TO_IND.items()' in U(i2v_node) and U(i2v_node.key) == 'ind' and U(i2v_node.value) == 'val_type'
     ctx.shape('C14.X1', ok, dmx, i2v_node, 'IND_TO_VALTYPE is the inverse comprehension over VAL_TYPE_TO_IND', func='<module>', text='IND_TO_VALTYPE inverts VAL_TYPE_TO_IND')
     ctx.check('C14.X1', len(set(v2i.values())) == len(v2i), dmx, dmx.global_assign('VAL_TYPE_TO_IND'), 'two value types share a wire code', func='<module>', text='VAL_TYPE_TO_IND injective')
     i2v = {v: k for k, v in v2i.items()}
@@ -548,7 +549,7 @@ def run(ctx: Any, prog: Program) -> None:
     if not sub_ok or not isinstance(op, (ast.Gt, ast.GtE)):
         raise AnalysisError('parse_bin: classification idiom changed (expected `if attr_type_data >[=] ARRAY_OFFSET: attr_type_data -= ARRAY_OFFSET`)')
     # writer encoding
-    wsrc = ast.unparse(eb)
+    wsrc = U(eb)
     if 'typ_ind = VAL_TYPE_TO_IND[attr.type]' not in wsrc or 'typ_ind += ARRAY_OFFSET' not in wsrc:
         raise AnalysisError('export_binary: type code computation idiom changed')
     for m in members:
@@ -567,7 +568,7 @@ def run(ctx: Any, prog: Program) -> None:
     def table(fn: ast.AST, version: int) -> Tuple[Any, Any]:
         w = DmxWire(fold, dmx, {'version': version})
         for st in fn.body:
-            if isinstance(st, ast.If) and any(isinstance(n, ast.Name) and n.id == 'stringdb_ind' for n in ast.walk(st)) and 'version' in ast.unparse(st.test):
+            if isinstance(st, ast.If) and any(isinstance(n, ast.Name) and n.id == 'stringdb_ind' for n in ast.walk(st)) and 'version' in U(st.test):
                 w.stmt(st)
                 return w.env.get('stringdb_size') or None, w.env.get('stringdb_ind') or None
         raise AnalysisError('string-table format selection not found')
@@ -575,7 +576,7 @@ def run(ctx: Any, prog: Program) -> None:
         r, w_ = table(pb, v), table(eb, v)
         ctx.check('C14.X2', r == w_, dmx, eb, f'binary version {v}: reader uses string-table formats {r}, writer {w_}', func='Element.export_binary', text=f'string table formats v{v}')
     for fn, nm in ((pb, 'parse_bin'), (eb, 'export_binary')):
-        gate = [n for n in ast.walk(fn) if isinstance(n, ast.If) and 'ValueType.TIME' in ast.unparse(n.test) and 'version < 3' in ast.unparse(n.test) and any(isinstance(s, ast.Raise) for s in n.body)]
+        gate = [n for n in ast.walk(fn) if isinstance(n, ast.If) and 'ValueType.TIME' in U(n.test) and 'version < 3' in U(n.test) and any(isinstance(s, ast.Raise) for s in n.body)]
         ctx.shape('C14.X2', len(gate) == 1, dmx, gate[0] if gate else fn, f'{nm} must reject TIME attributes before binary version 3', func=f'Element.{nm}', text='TIME rejected before v3')
     # ---- X3 ------------------------------------------------------------------------------------------------
     for v in range(1, 6):
@@ -583,7 +584,7 @@ def run(ctx: Any, prog: Program) -> None:
             if m.name == 'TIME' and v < 3:
                 continue
             for arr in (False, True):
-                rv = {'version': v, 'attr_type': m, 'array_size is not None': arr, 'array_size is None': not arr, ast.unparse(cif.test): arr}
+                rv = {'version': v, 'attr_type': m, 'array_size is not None': arr, 'array_size is None': not arr, U(cif.test): arr}
                 wv = {'version': v, 'attr.type': m, 'attr.is_array': arr}
                 rw, ww = DmxWire(fold, dmx, rv), DmxWire(fold, dmx, wv)
                 ri = rw.block(pb.body)
@@ -627,7 +628,7 @@ def run(ctx: Any, prog: Program) -> None:
                 if isinstance(g, ast.Call) and isinstance(g.func, ast.Attribute) and g.func.attr == 'get' and isinstance(g.func.value, ast.Name) and g.func.value.id in index_tables and len(g.args) == 1:
                     par = dmx.parents.get(g)
                     truthy = isinstance(par, (ast.If, ast.While, ast.BoolOp, ast.IfExp)) or (isinstance(par, ast.UnaryOp) and isinstance(par.op, ast.Not))
-                    ctx.check('C14.X9', not truthy, dmx, g, f'`{ast.unparse(par)[:70]}` tests the truthiness of `{ast.unparse(g)}`, but `{g.func.value.id}` maps to positions and position 0 (the root element) is falsy: '
+                    ctx.check('C14.X9', not truthy, dmx, g, f'`{U(par)[:70]}` tests the truthiness of `{U(g)}`, but `{g.func.value.id}` maps to positions and position 0 (the root element) is falsy: '
                               'the root is taken for unseen, appended to the element table again, and every reference to it points at the copy', func=qn, text=f'{qn}: {g.func.value.id}.get() used as a truth value')
             ctx.check('C14.X9', True, dmx, fn, 'index tables consulted with in / is None', func=qn, text=f'{qn}: index tables {sorted(index_tables)}')
     if n_tbl < 1:
@@ -654,7 +655,7 @@ def run(ctx: Any, prog: Program) -> None:
                 tup_of[name] = dotted(st.value.args[2]) or ''
     for helper, uses in (('_binconv_basic', 1), ('_binconv_cls', 1)):
         h = dmx.func(helper)
-        src = ast.unparse(h)
+        src = U(h)
         ok = "ns['_struct_' + name] = shape" in src and src.count('shape.pack') == 1 and src.count('shape.unpack') == 1
         ctx.shape('C14.X4', ok, dmx, h, f'{helper} must register one Struct and derive both converters from it', func=helper, text='one struct for both directions')
     for m in members:
@@ -699,8 +700,8 @@ def run(ctx: Any, prog: Program) -> None:
     floor_half = isinstance(q, ast.Call) and dotted(q.func) in ('math.floor', 'floor') and isinstance(q.args[0], ast.BinOp) and isinstance(q.args[0].op, ast.Add) \
         and isinstance(q.args[0].right, ast.Constant) and q.args[0].right.value == 0.5
     if not (nearest or floor_half) and not (isinstance(q, ast.Call) and dotted(q.func) in ('int', 'math.trunc', 'math.floor', 'math.ceil')):
-        raise AnalysisError(f'_conv_time_to_binary: quantiser `{ast.unparse(q)}` is not an enumerated rounding idiom')
-    ctx.check('C14.X4', nearest or floor_half, dmx, packs[0], f'`{ast.unparse(q)}` does not round to the nearest tick for every sign (int() truncates toward zero: -1.0 s becomes -9999 ticks): '
+        raise AnalysisError(f'_conv_time_to_binary: quantiser `{U(q)}` is not an enumerated rounding idiom')
+    ctx.check('C14.X4', nearest or floor_half, dmx, packs[0], f'`{U(q)}` does not round to the nearest tick for every sign (int() truncates toward zero: -1.0 s becomes -9999 ticks): '
               'times that are exact tick multiples must survive', func='_conv_time_to_binary', text='time quantiser rounds to nearest for both signs')
     # matrix cell positions
     def cells_written(fn: ast.AST) -> Dict[str, int]:
@@ -709,7 +710,7 @@ def run(ctx: Any, prog: Program) -> None:
             if isinstance(c, ast.Call) and isinstance(c.func, ast.Attribute) and c.func.attr == 'pack':
                 for i, a in enumerate(c.args):
                     if isinstance(a, ast.Subscript) and dotted(a.value) == 'mat':
-                        out[ast.unparse(a.slice)] = i
+                        out[U(a.slice)] = i
         if not out:   # text form: evaluate the string construction on a symbolic matrix
             out = symbolic_text_cells(fn)
         return out
@@ -721,7 +722,7 @@ def run(ctx: Any, prog: Program) -> None:
                 lo = st.value.slice.lower.value
                 for i, t in enumerate(st.targets[0].elts):
                     if isinstance(t, ast.Subscript) and dotted(t.value) == 'mat':
-                        out[ast.unparse(t.slice)] = lo + i
+                        out[U(t.slice)] = lo + i
         return out
     for wname, rname in (('_conv_matrix_to_binary', '_conv_binary_to_matrix'), ('_conv_matrix_to_string', '_conv_string_to_matrix')):
         w_, r_ = cells_written(dmx.func(wname)), cells_read(dmx.func(rname))
@@ -749,13 +750,13 @@ def run(ctx: Any, prog: Program) -> None:
             if not quoted:
                 continue
             n_q += 1
-            src = ast.unparse(a)
+            src = U(a)
             label = f'quoted slot {src[:50]}'
             if not (isinstance(a, ast.Call) and isinstance(a.func, ast.Attribute) and a.func.attr == 'encode'):
                 raise AnalysisError(f'line {c.lineno}: quoted slot `{src}` is not an encoded str')
             inner = a.func.value
             enc_arg = a.args[0] if a.args else None
-            if isinstance(inner, ast.Call) and dotted(inner.func) == 'str' and 'uuid' in ast.unparse(inner):
+            if isinstance(inner, ast.Call) and dotted(inner.func) == 'str' and 'uuid' in U(inner):
                 ctx.check('C14.X5', True, dmx, c, 'UUID text needs no escaping', func='Element._export_kv2', text=label)
                 continue
             if isinstance(inner, ast.Attribute) and dotted(inner) == 'attr.type.value':
@@ -788,7 +789,7 @@ def run(ctx: Any, prog: Program) -> None:
             compared.add(n.comparators[0].value)
         if isinstance(n, ast.Call) and isinstance(n.func, ast.Attribute) and n.func.attr == 'endswith' and n.args and isinstance(n.args[0], ast.Constant):
             suffix = n.args[0].value
-            cut = [s for s in ast.walk(pe) if isinstance(s, ast.Subscript) and isinstance(s.slice, ast.Slice) and s.slice.upper is not None and ast.unparse(s.slice.upper) == f'-{len(suffix)}']
+            cut = [s for s in ast.walk(pe) if isinstance(s, ast.Subscript) and isinstance(s.slice, ast.Slice) and s.slice.upper is not None and U(s.slice.upper) == f'-{len(suffix)}']
             compared.add('*' + suffix if cut else '*' + suffix + ' (not cut by its length)')
     for w_ in sorted(written):
         ctx.check('C14.X5', w_ in compared, dmx, ek, f'keyword "{w_}" is written but the parser never compares against it (parser knows {sorted(compared)})', func='Element._export_kv2', text=f'keyword {w_}')
@@ -805,7 +806,7 @@ def run(ctx: Any, prog: Program) -> None:
                     ok = bool(par.args or par.keywords)
                     ctx.check('C14.X6', ok, dmx, par, 'StubElement.stub() without a UUID creates a stub with a random UUID', func=f'Element.{fname}', text=f'{fname}: stub created with uuid')
                 else:
-                    ctx.check('C14.X6', False, dmx, par or n, f'`{ast.unparse(par)[:70] if par is not None else "StubElement.stub"}` hands StubElement.stub to a container as a key-less factory: stubs[uuid] then creates a stub '
+                    ctx.check('C14.X6', False, dmx, par or n, f'`{U(par)[:70] if par is not None else "StubElement.stub"}` hands StubElement.stub to a container as a key-less factory: stubs[uuid] then creates a stub '
                               'with a fresh random UUID instead of the referenced one', func=f'Element.{fname}', text=f'{fname}: stub factory receives the uuid')
     if n6 < 2:
         raise AnalysisError('stub construction sites not found in the parsers')
@@ -819,7 +820,7 @@ def run(ctx: Any, prog: Program) -> None:
         var = queue[0].args[0].id
         # conditions under which the loop body skips / includes the element
         loop = next((l for l in ast.walk(fn) if isinstance(l, ast.For) and isinstance(l.target, ast.Name) and l.target.id == var and any(c is queue[0] for c in ast.walk(l))), None)
-        tests = [ast.unparse(n.test) for n in ast.walk(loop) if isinstance(n, ast.If)] if loop is not None else []
+        tests = [U(n.test) for n in ast.walk(loop) if isinstance(n, ast.If)] if loop is not None else []
         excludes_all = any(f'isinstance({var}, StubElement)' in t for t in tests) or any(f'{var}.is_stub' in t and (f'{var}.is_null' in t or f'{var} is NULL' in t) for t in tests)
         only_null = any(t in (f'{var} is NULL', f'{var}.is_null') for t in tests)
         if excludes_all:
@@ -833,19 +834,19 @@ def run(ctx: Any, prog: Program) -> None:
     cnt = [n for n in walk_no_nested(eb) if isinstance(n, ast.Assign) and dotted(n.targets[0]) == 'attr_count']
     if len(cnt) != 1:
         raise AnalysisError('export_binary: attr_count computation not found')
-    loop = [n for n in walk_no_nested(eb) if isinstance(n, ast.For) and dotted(n.iter) == 'elem.values' + '' or (isinstance(n, ast.For) and ast.unparse(n.iter) == 'elem.values()')]
+    loop = [n for n in walk_no_nested(eb) if isinstance(n, ast.For) and dotted(n.iter) == 'elem.values' + '' or (isinstance(n, ast.For) and U(n.iter) == 'elem.values()')]
     loop = [l for l in loop if any(isinstance(c, ast.Call) and dotted(c.func) == 'pack' for c in ast.walk(l))]
     if len(loop) != 1:
         raise AnalysisError('export_binary: attribute writing loop not found')
     skip = [s for s in loop[0].body if isinstance(s, ast.If) and any(isinstance(x, ast.Continue) for x in s.body)]
     if len(skip) != 1:
         raise AnalysisError('export_binary: the name-attribute skip was not found')
-    skip_src = ast.unparse(skip[0].test)
-    cnt_src = ast.unparse(cnt[0].value)
+    skip_src = U(skip[0].test)
+    cnt_src = U(cnt[0].value)
     adj = [n for n in walk_no_nested(eb) if isinstance(n, ast.If) and any(isinstance(s, ast.AugAssign) and dotted(s.target) == 'attr_count' for s in n.body)]
     folded_skip = 'casefold()' in skip_src
     if adj:
-        adj_src = ast.unparse(adj[0].test)
+        adj_src = U(adj[0].test)
         folded_cnt = "in elem._members" in adj_src or 'casefold()' in adj_src
         same = folded_cnt == folded_skip
         detail = f'the count drops one when `{adj_src}` (case-insensitive key) but the loop skips when `{skip_src}` (exact spelling): an attribute spelled e.g. "Name" is counted out yet written'
@@ -855,7 +856,7 @@ def run(ctx: Any, prog: Program) -> None:
     ctx.check('C14.X7', same, dmx, cnt[0], detail, func='Element.export_binary', text='attribute count criterion = skip criterion')
     # ---- X8 ------------------------------------------------------------------------------------------------
     fk, tk = em['from_kv1'], em['to_kv1']
-    fsrc, tsrc = ast.unparse(fk), ast.unparse(tk)
+    fsrc, tsrc = U(fk), U(tk)
     produced = {a.id for c in ast.walk(fk) if isinstance(c, ast.Call) and dotted(c.func) == 'cls' for a in c.args[1:2] if isinstance(a, ast.Name) and a.id.startswith('NAME_KV1')}
     dispatched = {n.comparators[0].id for n in ast.walk(tk) if isinstance(n, ast.Compare) and dotted(n.left) == 'self.type' and isinstance(n.comparators[0], ast.Name)}
     if not produced or not dispatched:
@@ -873,13 +874,13 @@ def run(ctx: Any, prog: Program) -> None:
     ctx.check('C14.X8', rset == special and bool(rset), dmx, fk, f'from_kv1 reserves {sorted(rset)} but to_kv1 treats {sorted(special)} specially', func='Element.from_kv1', text='reserved names agree')
     # Element keys are case-insensitive (Element.__setitem__ folds), so reserved / duplicate tests must use the folded Keyvalues.name
     kvm = prog.module('keyvalues').methods('Keyvalues')
-    folded_prop = 'name' in kvm and '_folded_name' in ast.unparse(kvm['name'])
+    folded_prop = 'name' in kvm and '_folded_name' in U(kvm['name'])
     tests = [n for n in ast.walk(fk) if isinstance(n, ast.Compare) and isinstance(n.ops[0], (ast.In, ast.NotIn)) and isinstance(n.left, ast.Attribute) and dotted(n.left.value) == 'child']
     if len(tests) < 2 or not folded_prop:
         raise AnalysisError('from_kv1: reserved-name / duplicate membership tests not found')
     for t in tests:
-        ctx.check('C14.X8', t.left.attr == 'name', dmx, t, f'`{ast.unparse(t)}` tests the original spelling: Element attribute keys are case-insensitive, so a leaf spelt "Name" is inlined over the element\'s own name attribute',
-                  func='Element.from_kv1', text=f'membership test on folded name: {ast.unparse(t.comparators[0])[:30]}')
+        ctx.check('C14.X8', t.left.attr == 'name', dmx, t, f'`{U(t)}` tests the original spelling: Element attribute keys are case-insensitive, so a leaf spelt "Name" is inlined over the element\'s own name attribute',
+                  func='Element.from_kv1', text=f'membership test on folded name: {U(t.comparators[0])[:30]}')
     ok = "elem['subkeys'] = subkeys = Attribute.array('subkeys', ValueType.ELEMENT)" in fsrc and 'subkeys.iter_elem()' in tsrc
     ctx.shape('C14.X8', ok, dmx, fk, 'nested blocks travel in the `subkeys` element array', func='Element.from_kv1', text='subkeys array')
 
